@@ -67,11 +67,8 @@ def main():
                 jobs.append((c.upper(), pid, name, d, args.seeds.split(",")))
     hidden = []
     if args.no_replays:
-        for c in set(j[0] for j in jobs):
-            for f in glob.glob(os.path.join(VERIF, "replays", c, "seeded-*.json")) + \
-                    glob.glob(os.path.join(VERIF, "replays", c, "mutant-*.json")):
-                os.rename(f, f + ".hidden")
-                hidden.append(f)
+        # the runner skips the harvested regression cases (nothing is renamed: other runs are not disturbed)
+        os.environ["VERIF_SKIP_REPLAY_PREFIXES"] = "seeded-,mutant-"
     bad = 0
     try:
         with ThreadPoolExecutor(args.jobs) as ex:
